@@ -16,12 +16,14 @@ structure TravSt where
   k : Nat := 0
   alpha : Nat := 0
   rejIps : List (List UInt8) := []
+  rejIds : List (List UInt8) := []
   needData : Bool := false
   s : Trav := {}
 
 def TravSt.cfg (st : TravSt) : TravCfg :=
   { target := st.target, k := st.k, alpha := st.alpha,
-    nodeFilter := fun n => !(st.rejIps.contains n.addr.ip),
+    nodeFilter := fun n => !(st.rejIps.contains n.addr.ip) &&
+      !(match n.id with | some id => st.rejIds.contains id | none => false),
     dataFilter := fun d => !st.needData || d.isSome }
 
 def canonClosest (t : Id) (xs : List KElem) : List String :=
@@ -49,13 +51,14 @@ def stopperSettle (c : TravCfg) : Nat → Trav → Trav
 
 def stepTrav (st : TravSt) (args : List String) : TravSt × String :=
   match args with
-  | ["new", t, k, alpha, rej, df] =>
-    match parseBytes t, k.toNat?, alpha.toNat?, allSome ((splitList rej).map parseBytes) with
-    | some t, some k, some alpha, some rej =>
-      let st' : TravSt := { target := t, k := k, alpha := alpha, rejIps := rej, needData := df == "str" }
+  | ["new", t, k, alpha, rej, df, rejIds] =>
+    match parseBytes t, k.toNat?, alpha.toNat?, allSome ((splitList rej).map parseBytes),
+        allSome ((splitList rejIds).map parseBytes) with
+    | some t, some k, some alpha, some rej, some rejIds =>
+      let st' : TravSt := { target := t, k := k, alpha := alpha, rejIps := rej, rejIds := rejIds, needData := df == "str" }
       -- the run goroutine starts at once and goes to sleep
       ({ st' with s := Trav.settle st'.cfg 8 {} }, "ok")
-    | _, _, _, _ => (st, "bad-op")
+    | _, _, _, _, _ => (st, "bad-op")
   | ["addnodes", ns] =>
     match parseCands ns with
     | some ns =>
